@@ -5,6 +5,7 @@ mod c07;
 mod c08;
 mod c11;
 mod c12;
+mod c13;
 mod enc;
 mod out;
 mod rng;
@@ -55,6 +56,7 @@ fn main() {
         "C08" => c08::run(&a),
         "C11" => c11::run(&a),
         "C12" => c12::run(&a),
+        "C13" => c13::run(&a),
         _ => {
             eprintln!("no harness for {}", prop);
             std::process::exit(2);
